@@ -1,6 +1,6 @@
 """Per-property configuration of ./check."""
 
-HOOK_COMMITS = ["93c5b5f", "7b65bb1", "563f8ff", "154b503", "b4271c3", "cde17b7", "d2f58b6"]
+HOOK_COMMITS = ["93c5b5f", "7b65bb1", "563f8ff", "154b503", "b4271c3", "cde17b7", "d2f58b6", "8829019"]
 
 COMMON_ASSUME = [
     "the hand-written Lean model is faithful to /repo only as far as this run's correspondence sampled it",
@@ -141,7 +141,7 @@ PROPS = {
             "assumptions": COMMON_ASSUME + ["posix_spawn, pipe2(O_CLOEXEC), waitpid, /bin/sh, /proc: observed on this kernel only; signal delivery to n2 itself (Ctrl-C) is not exercised; FancyConsoleProgress (tty) printing is not modelled (C20 covers its pure helpers)"],
             "trusted_base": ["task.rs extract_showincludes/find_last_line, the status cascade of process_posix.rs::run_command, progress_dumb.rs modelled; posix_spawn/pipe/waitpid/threads observed"],
             "explanation": "logic proved in Lean and tied to the code by correspondence; operating-system behaviour observed on the real run_command and the real binary (cannot be exhibited by a Lean model)",
-            "monitors": ["noNoteShown", "zeroIsSuccess", "signalIsNotSuccess", "sigintInterrupts"]},
+            "monitors": ["noNoteShown", "zeroIsSuccess", "signalIsNotSuccess", "sigintInterrupts", "outputIntact", "runsThroughSh", "stdinDevNull", "noFdLeak", "printedOnceContiguous", "rspfileExact", "outputDirsExist"]},
     "C02": _hist("Lean 4 theorems about the manifest rule: a non-phony step is judged clean only if no named file is missing, a completion record exists and its manifest equals the manifest of the files as they are now; the check is read-only; record_finished appends exactly one record carrying the manifest of the re-stat()ed post-command state, or nothing when a file is missing; the manifest names exactly dirtying inputs, discovered deps, outputs (with mtimes), command line and rspfile. The composed world model (loader + log + scheduler + dirtiness + command semantics) reproduces the real n2 on every generated history (traces, results, whole tree), and the monitors cleanEq (contents of the requested closure = from-scratch build, computed by the Lean model) and logAgrees are evaluated on the implementation's tree and log.",
                  ["C02"], ["cleanEq", "logAgrees"]),
     "C03": _hist("Lean 4 theorems: a step is judged dirty only if a named file is missing, or it has no record, or the recorded manifest differs (and is clean when none of these holds); phony steps never run; order-only/validation inputs do not enter the manifest; the manifest depends on the stat cache only through the mtimes of the files it names (an upstream re-run that keeps timestamps dirties nothing); -t restat touches no file. Tied by exact agreement of the world model with the real n2 on histories; monitors runSetAsPredicted (per invocation the set of started commands equals the set the Lean model of the manifest rule predicts from the tree and the log), noopAfterSuccess (an invocation right after a successful one of the same targets starts nothing and reports 0 tasks, whenever every named file and reported dependency exists) and restatRunsNothing on the implementation's traces.",
@@ -176,17 +176,17 @@ PROPS = {
             "rule": DB_RULE, "assumptions": DB_ASSUME, "trusted_base": DB_TB,
             "monitors": ["attributionOk", "survivorsExact"]},
     "C01": _sched("Lean 4 theorems about the scheduler model: the readiness gate admits a build only when every producer of an ordering input is Done; everything ready_dependents promotes passed it; the gating invariant is preserved by every state transition; validation edges do not enter readiness; the want phase never resets a queued/running/finished build (joint induction over the mutually recursive want functions, covering re-entrancy). The model is tied to the real Work/Runner by exact equality of full transition traces on random graphs x schedules, and the monitors startsAfterDeps (all transitive ordering producers Done before a start) and startsOnce are evaluated in Lean on the implementation's trace.",
-                  ["C01"], ["startsAfterDeps", "startsOnce"]),
+                  ["C01"], ["startsAfterDeps", "startsOnce", "traceSpec"]),
     "C04": _sched("Lean 4 theorems: pop_queued only hands out builds from a pool with room; the start loop never exceeds -j; per-pool running counters equal the number of Running builds of that pool across every transition; pool names are distinct with declared pools overriding built-ins; an undeclared pool is an error at enqueue time. Tied to the real scheduler by trace equality; monitor withinLimits (running set <= -j and <= depth per pool at every start) evaluated on the implementation's trace.",
-                  ["C04"], ["withinLimits"]),
+                  ["C04"], ["withinLimits", "traceSpec"]),
     "C05": _sched("Lean 4 theorems: Work::run reports success only with no failed task and nothing pending; with the invariant, nothing pending means every build is Unknown, Done or Failed; a Failed producer blocks the readiness gate of its dependents; the want phase cannot revive a Failed build. Tied to the real scheduler by trace equality; monitors failuresContained, budgetRespected, exitOk, stopsOnInterrupt evaluated on the implementation's trace.",
-                  ["C05"], ["failuresContained", "budgetRespected", "exitOk", "stopsOnInterrupt"]),
+                  ["C05"], ["failuresContained", "budgetRespected", "exitOk", "stopsOnInterrupt", "traceSpec"]),
     "C06": _sched("Lean 4 theorems: an error while collecting the wanted set (dependency cycle) returns before the run loop, so nothing starts; the diagnostic has the documented shape; readiness never looks at validation inputs; inherited Done states survive the second want phase; the run loops are total functions. Termination without the BUG outcome and 'all wanted Done when nothing fails' are so far checked by the monitor `decided`/`exitOk` on every implementation trace (cyclic, validation-cyclic and acyclic graphs) and by trace equality with the model; the progress-measure proof is in progress.",
                   ["C06"], ["decided", "exitOk", "cycleSound", "cycleComplete"]),
     "C18": _sched("Lean 4 theorems: target lookup is invariant under spellings with equal canonical form; an unknown name is rejected (outside restat mode) before later targets are considered; the manifest named as target is skipped; wanting more targets only turns Unknown builds into Want/Ready. Tied to the real run::build by trace equality (targets / defaults / all-files choice is part of the model); monitors onlyWanted and closureComplete (the set of builds that left Unknown = closure over ordering+validation producers of the resolved targets) evaluated on the implementation's trace.",
                   ["C18"], ["onlyWanted", "closureComplete"]),
     "C19": _sched("Lean 4 theorems: initially and across every state transition each UI count equals the number of non-phony builds in that state and `pending` the number of Want/Ready/Queued/Running builds (so the isize/usize casts never wrap: all counts in [0, #builds]); the want phase changes no finished count nor tasks_run. Tied to the real scheduler by trace equality including the counts of every transition; monitors countsOk (per update: counts = recomputed from transitions, running = started-finished, done/failed monotone) and summaryOk (ran N = successful commands) evaluated on the implementation's trace.",
-                  ["C19"], ["countsOk", "summaryOk"]),
+                  ["C19"], ["countsOk", "summaryOk", "traceSpec"]),
     "C20": {
         "claim": "Lean 4 theorems over ALL byte strings, seconds, widths and count vectors: truncate returns a boundary-aligned prefix of at most max bytes; the repaired task_message never panics, fits the width (>= 3) and is cut on a character boundary; progress_bar has exactly its nominal width. The model is tied to the real helpers (through add-only pub wrappers) on all strings up to 3/5 characters mixing 1-4 byte characters x widths x seconds, random long strings, and exhaustive small + random count vectors.",
         "props": ["C20"],
